@@ -510,7 +510,7 @@ LARGER_ENCODERS = {
         "coefs, const = self._flatten_sum(left)\n    right_coefs, right_const = self._flatten_sum(right)\n    for name, k in right_coefs.items():\n        coefs[name] = coefs.get(name, 0) - k\n    const -= right_const\n    target = -const",
         "terms = [(self.model._vars[name], k) for name, k in coefs.items() if k != 0]\n    if not terms:\n        if (target != 0) != is_ne:\n            self._clauses.append([])\n        return",
         "var, k = terms[0]\n    reached = {k * v: lit for v, lit in var.bool_vars.items()}",
-        "sums = {s + k * v for s in reached for v in var.bool_vars}\n        partial = self._create_int_var(min(sums), max(sums))",
+        "sums = {s + k * v for s in reached for v in var.bool_vars}\n        if not sums:\n            self._clauses.append([])\n            return\n        partial = self._create_int_var(min(sums), max(sums))",
         "self._clauses.append([-s_lit, -v_lit, partial.bool_vars[s + k * v]])",
         "reached = {s: partial.bool_vars[s] for s in sums}",
         "if is_ne:\n        if target in reached:\n            self._clauses.append([-reached[target]])\n    elif target in reached:\n        self._clauses.append([reached[target]])\n    else:\n        self._clauses.append([])",
